@@ -16,7 +16,7 @@ def run(ck):
     ck.cov["rule"] = ("case = one system run to quiescence on the real code: TLC-enumerated scripts of TickImpl.tla on topologies with 2-3 ports per connection, "
                       "and seeded stress systems; non-trivial = at least 2 messages sent.")
     ck.assumptions += ["senders call CanSend before Send (documented contract)", "message identity compared by value (ID, Src, Dst, class, bytes, payload)"]
-    cfgs = ["TickImpl_q3.cfg", "TickImpl_q2.cfg"] if q else ["TickImpl_t3.cfg", "TickImpl_t1.cfg"]
+    cfgs = ["TickImpl_q3.cfg", "TickImpl_q2.cfg"] if q else ["TickImpl_t3.cfg", "TickImpl_t1.cfg", "TickImpl_t5.cfg"]
     lost, ok = tickcheck.model_behaviours(ck, cfgs, workers=8 if q else 16, cap=1500 if q else 30000)
     systems = [tickcheck.system_from_behaviour(b) for b in lost + ok]
     cases, out = tickcheck.run_and_monitor(ck, "model-scripts", systems=systems)
